@@ -449,27 +449,31 @@ Definition copy_entries (ins : list (str * node)) : list (str * node) :=
   fold_left (fun es pn => ins_entry (basename (fst pn)) (snd pn) es) ins [].
 Definition copy_dir (ins : list (str * node)) : node := Dir (copy_entries ins).
 
-(* outs: $OUTS (sorted declared outputs); ins: $SRCS as (temporary path, tree) *)
+(* what $SRCS names: the inputs of the tools are not among them (a command that does not mention $TOOLS never sees a tool) *)
+Definition src_ins (ins : list (str * node)) : list (str * node) := filter (fun pn => negb (is_tool_in pn)) ins.
+
+(* outs: $OUTS (sorted declared outputs); ins: $SRCS as (temporary path, tree), then the outputs of the tools (marked).
+   Only UseTool / UseNTool / ToolNames mention $TOOLS; every other command works on $SRCS (src_ins) *)
 Definition act (k : kind) (outs : list str) (ins : list (str * node)) : option (list (str * node)) :=
   match k with
   | Genrule Concat =>
       match outs with
       | [] => None
       | o :: rest =>
-          match all_files ins with
+          match all_files (src_ins ins) with
           | Some c => Some ((o, File false c)
-                            :: map (fun o' => (o', File false (dec (N.of_nat (length ins)) ++ nl))) rest)
+                            :: map (fun o' => (o', File false (dec (N.of_nat (length (src_ins ins))) ++ nl))) rest)
           | None => None
           end
       end
-  | Genrule CopyDir => match outs with [o] => Some [(o, copy_dir ins)] | _ => None end
-  | Genrule ListNames => match outs with [o] => Some [(o, File false (list_names ins))] | _ => None end
+  | Genrule CopyDir => match outs with [o] => Some [(o, copy_dir (src_ins ins))] | _ => None end
+  | Genrule ListNames => match outs with [o] => Some [(o, File false (list_names (src_ins ins)))] | _ => None end
   | Genrule (Const a) => Some (map (fun o => (o, File false (a ++ nl))) outs)
   | Genrule Fail => None
-  | Genrule (CatAll dir) => match outs with [o] => Some [(o, File false (cat_all dir ins))] | _ => None end
+  | Genrule (CatAll dir) => match outs with [o] => Some [(o, File false (cat_all dir (src_ins ins)))] | _ => None end
   | Genrule UseTool | Genrule UseNTool =>
       match outs with
-      | [o] => match all_files (filter is_tool_in ins ++ filter (fun pn => negb (is_tool_in pn)) ins) with
+      | [o] => match all_files (filter is_tool_in ins ++ src_ins ins) with
                | Some c => Some [(o, File false c)]
                | None => None
                end
